@@ -180,7 +180,13 @@ class TierHistory:
             self._add(self._construct())
             return
         isint = t.tierType == "IntervalTier"
-        if op == "new":
+        if op == "new" and r.random() < 0.2:
+            # a copy made by the standard library instead of by the tier: it must behave like the tier it was made from
+            import copy
+            import pickle
+
+            res = self._run("copy", t, (lambda: copy.deepcopy(t)) if r.random() < 0.5 else (lambda: pickle.loads(pickle.dumps(t))), ())
+        elif op == "new":
             kw = {}
             if r.random() < 0.5:
                 kw["name"] = "n%d" % r.randrange(3)
@@ -247,6 +253,8 @@ class TierHistory:
             res = None
         elif op in ("union", "appendTier", "dejitter"):
             other = self._pick(t.tierType if (op != "dejitter" and r.random() < 0.9) else None) or t
+            if r.random() < 0.12:
+                other = t  # the same object as both operands
             if op == "dejitter":
                 d = r.choice([gen.UNIT / 2, gen.UNIT, gen.UNIT / 4]) if self.grid else r.choice([0.001, 0.005, 0.01, 0.125])
                 res = self._run(op, t, t.dejitter, (other, d))
@@ -258,6 +266,8 @@ class TierHistory:
                 if t is None:
                     return
             other = self._pick("IntervalTier") or t
+            if r.random() < 0.12:
+                other = t  # the same object as both operands
             if op == "morph":
                 cands = [u for u in self.pool if u.tierType == "IntervalTier" and len(u.entries) == len(t.entries)]
                 if cands and r.random() < 0.85:
